@@ -52,12 +52,41 @@ bool lsearch_t::get(solver_state_t& state, const vector_t& descent, const logger
 }
 #endif
 
+#ifdef QP_ORACLE
+// gradient-sampling solvers: the inner QP (minimum-norm element of the convex hull of the sampled gradients) is replaced by an
+// arbitrary point of the simplex - every answer the interior-point solver could give, optimal or not
+#include <nano/program/solver.h>
+namespace
+{
+int g_qps = 0;
+}
+program::solver_state_t program::solver_t::solve(const program::quadratic_program_t& qp, const logger_t&) const
+{
+    const auto              p = qp.m_c.size();
+    program::solver_state_t st(p, p, 1);
+    double                  rest = 1.0;
+    for (tensor_size_t i = 0; i + 1 < p; ++i)
+    {
+        st.m_x(i) = sym_real_in(sym_nm("w", g_qps, i).c_str(), 0.0, 1.0, 0);
+        rest      = rest - st.m_x(i);
+    }
+    sym_assume_cmp(rest, SYM_GE, 0.0);
+    st.m_x(p - 1) = rest;
+    st.m_status   = cfgi("qpfail", 0) && sym_choose(sym_nm("qpst", g_qps).c_str(), 2) ? solver_status::failed : solver_status::converged;
+    ++g_qps;
+    return st;
+}
+#endif
+
 extern "C" void sym_body()
 {
     g_moves = 0;
     g_descents.clear();
     g_from.clear();
     g_grads.clear();
+#ifdef QP_ORACLE
+    g_qps = 0;
+#endif
     const std::string   id    = cfg("solver", "gd");
     const tensor_size_t n     = cfgi("d", 1);
     const long          evals = cfgi("evals", 10);
